@@ -1242,7 +1242,7 @@ def _exc_site(tb):
 LIFECYCLE = ('open', 'close', 'lerr')
 RACE_CLAUSES = ('Grammar', 'ConnectedBeforeTables', 'FullyBeforeValues', 'AfterDisconnected', 'LostWithoutDisconnected',
                 'FailureDisconnectedThenLost', 'FailureBeforeFirstPacketFails', 'CloseOneDisconnected',
-                'SyncCallHangs', 'NotDisconnected', 'SpuriousDisconnected')
+                'SyncCallHangs', 'NotDisconnected', 'SpuriousDisconnected', 'ReconnectIncomplete')
 
 
 def lifecycle_race(t, clause, at):
@@ -1313,6 +1313,12 @@ def lifecycle_race(t, clause, at):
                 return True
         return False
     variant = 'reconnect' if any(x['e'] == 'open' and x['att'] >= 2 for x in ev[:max(at, 0)]) else 'during-teardown'
+    if clause == 'ReconnectIncomplete':
+        # only R5: before quiescence the dispatcher was still handling a packet of a link that a later open_link had
+        # replaced (e.g. it finishes request_update_of_all_params of the old attempt: the stale request is sent on the
+        # new link, the failure of that attempt is reported as connection_failed, which does not release wait_lock)
+        q_at = next((i for i, x in enumerate(ev) if x['e'] == 'quiet'), len(ev))
+        return 'reconnect' if replaced_link_packet(q_at, 1) else None
     if clause in ('SyncCallHangs', 'NotDisconnected', 'SpuriousDisconnected'):
         # end-of-trace clauses: the attempt concerned (the one of the pending wrapper call, else the last one) must
         # itself have been raced: one of its lifecycle routines overlapped one of another thread, or its set-up was
